@@ -1,8 +1,29 @@
 import DepsDev.Drive.Loop
-open DepsDev
+import DepsDev.Model.Api.Render
+open DepsDev DepsDev.Api.C17
 
-/-- Stub: replaced by the property's builder. -/
+/-- Hex of a string for result lines (as Go's `fw.Hx`). -/
+def hexStr (s : String) : String := Bytes.toHex (Bytes.ofString s)
+
+def unhex (h : String) : Option String :=
+  match Bytes.ofHex h with
+  | none => none
+  | some b => String.fromUTF8? (ByteArray.mk b.toArray)
+
 def handleC17 : List String → String
+  | ["extract", src] => extract src
+  | ["count", c] =>
+    match checkList.find? (fun k => k.name == c) with
+    | none => "bad-op"
+    | some k => s!"ok {k.l.length} {k.r.length}"
+  | ["group", c, h] =>
+    match checkList.find? (fun k => k.name == c), unhex h with
+    | some k, some owner => k.group owner
+    | _, _ => "bad-op"
+  | ["fact", c, h] =>
+    match checkList.find? (fun k => k.name == c), unhex h with
+    | some k, some key => k.fact key hexStr
+    | _, _ => "bad-op"
   | _ => "bad-op"
 
 def main : IO Unit := Drive.runDriver "C17" handleC17
